@@ -7,6 +7,7 @@ import Hive.Proofs.Events
 import Hive.Proofs.EventsLink
 import Hive.Proofs.EventsCount
 import Hive.Proofs.EventsRelink
+import Hive.Proofs.EventsMaxN
 import Hive.Spec.Events
 import Hive.Gen.C15_Skel
 /-!
@@ -609,6 +610,66 @@ example :
   decide
 
 end maxcount
+
+/-! ## WithMaxTriggerCount with several hooks under concurrency -/
+section maxcountN
+open Hive.EventsMaxN
+open Hive.EventsMax (minLim)
+
+/-- **C15, max trigger count with any number of hooks (any interleaving, any number of concurrent
+`Trigger` callers).**  The event has limit `n`, hook `i` has its own limit `ms[i]` (0 = unlimited).
+When all callers have returned, the event has let exactly `min(n, calls)` of them through and every
+hook has been invoked exactly `min(ms[i], that number)` times. -/
+theorem C15_max_trigger_count_hooks (n : Nat) (ms : List Nat) (ts ts' : List Th) (s : Sh)
+    (hts : ∀ t ∈ ts, t = .t0) (hr : Reach sys (init n ms, ts) (s, ts')) (hfin : ∀ t ∈ ts', t = .fin) :
+    s.passed = minLim n ts.length ∧ s.hooks.map (·.m) = ms ∧
+    ∀ (i : Nat) (hk : HSt), s.hooks[i]? = some hk → hk.fired = minLim hk.m s.passed := by
+  have hall : Inv (s, ts') ∧ s.n = n ∧ s.hooks.map (·.m) = ms :=
+    inv_induction (fun c => Inv c ∧ c.1.n = n ∧ c.1.hooks.map (·.m) = ms)
+      ⟨inv_init n ms ts hts, rfl, by simp [init, Function.comp_def]⟩
+      (fun a b ha hs => by
+        obtain ⟨h1, h2⟩ := lim_step ha.1 hs
+        exact ⟨inv_step ha.1 hs, by rw [h1]; exact ha.2.1, by rw [h2]; exact ha.2.2⟩) hr
+  obtain ⟨hinv, hn, hms⟩ := hall
+  have hlen : ts'.length = ts.length :=
+    inv_induction (fun c => c.2.length = ts.length) rfl (fun a b ha hs => by rw [step_length hs]; exact ha) hr
+  have hz : ∀ p : Th → Bool, p .fin = false → ts'.countP p = 0 := by
+    intro p hp
+    rw [List.countP_eq_zero]
+    intro t ht; rw [hfin t ht, hp]; simp
+  have hec : s.ec = ts.length := by
+    have := hinv.ec
+    simp only at this
+    rw [this, ← hlen, List.countP_eq_length]
+    intro t ht; rw [hfin t ht]; rfl
+  have hp : s.passed = minLim n ts.length := by
+    have := hinv.passed
+    simp only at this
+    rw [this, hn, hec]
+  refine ⟨hp, hms, ?_⟩
+  intro i hk hi
+  obtain ⟨h1, h2, h3, h4⟩ := hinv.hooks i hk hi
+  simp only at h1 h2 h3
+  rw [hz (atCall i) rfl] at h1
+  rw [hz (pending i) rfl] at h2
+  rw [hz (atUnhook i) rfl] at h3
+  by_cases hsk : 0 < hk.skipped
+  · have hg := h3 (Or.inr (h4 hsk))
+    simp only [minLim, hg.1, if_false] at h1 ⊢
+    omega
+  · have : hk.skipped = 0 := by omega
+    have hpc : s.passed = hk.hc := by omega
+    rw [hpc]; omega
+
+/-- Non-vacuity: two callers, event limit 0, hooks limited to 1 and unlimited. -/
+example :
+    let c := runSched sys (init 0 [1, 0], [.t0, .t0])
+      [(0, 0), (1, 0), (0, 0), (1, 0), (0, 0), (1, 0), (1, 0), (0, 0), (0, 0), (0, 0), (0, 0), (1, 0), (1, 0), (1, 0)]
+    c.2 = [.fin, .fin] ∧ c.1.passed = 2 ∧ c.1.hooks.map (fun h => (h.m, h.hc, h.fired, h.attached)) =
+      [(1, 2, 1, false), (0, 2, 2, true)] := by
+  decide
+
+end maxcountN
 
 /-! ## iteration of `Trigger` under concurrent `Hook` / `Unhook` -/
 section iter
